@@ -153,11 +153,12 @@ def main(argv=None):
                     except Exception as e:
                         viol("raised", fn, args=[k, mu, log], error="%s: %s" % (type(e).__name__, e))
             pc = float(pois_cdf(k, F(mu)))
-            if pc < 1 - 1e-12:
+            # the smallest k with P(X<=k) >= p; probe just below the step - which only stays inside the step when the
+            # step (the probability of k itself) is much higher than the relative 1e-9 the probe goes down by
+            if pc < 1 - 1e-12 and float(pois_pmf(k, F(mu))) > 1e-6:
                 n += 1
-                # the smallest k with P(X<=k) >= p; probe just below the step
                 q = R.qpois(pc * (1 - 1e-9), mu)
-                if int(q) != k and float(pois_pmf(k, F(mu))) > 1e-12:
+                if int(q) != k:
                     viol("quantile-not-inverse", "qpois", args=[pc, mu], got=float(q), want=k)
     for size, prob in itertools.product((1, 4, 12), (0.2, 0.5, 0.85)):
         for k in sorted({0, 1, size // 2, size}):
@@ -174,7 +175,7 @@ def main(argv=None):
                     except Exception as e:
                         viol("raised", fn, args=[k, size, prob, log], error="%s: %s" % (type(e).__name__, e))
             pc = float(binom_cdf(k, size, F(prob)))
-            if pc < 1 - 1e-12:
+            if pc < 1 - 1e-12 and float(binom_pmf(k, size, F(prob))) > 1e-6:
                 n += 1
                 q = R.qbinom(pc * (1 - 1e-9), size, prob)
                 if int(q) != k:
